@@ -50,8 +50,8 @@ def check(prog, rep):
         for tgt in prog.modules[mn].imports.values():
             tm = tgt.rpartition(".")[0]
             for cand in (tm, f"{mn.rpartition('.')[0]}.{tm}".strip(".")):
-                if cand in prog.modules and cand.startswith("optyx.solvers"):
-                    mods_.add(cand)
+                if cand in prog.modules and cand.startswith("optyx.solvers") and cand.rpartition(".")[2].startswith("_"):
+                    mods_.add(cand)     # private helper modules only; a sibling solver module is a different wrapper
     rep.section(_bounds, prog, rep, mods_)
     rep.section(_x0, prog, rep)
     rep.section(_auto, prog, rep)
